@@ -5,7 +5,7 @@ import ast
 import re
 
 from ..core import AnalysisError, own_nodes, short, unparse
-from ..rules import exa, fmt
+from ..rules import match, exa, fmt
 from . import common
 
 EXPLANATION = (
@@ -171,6 +171,107 @@ def check_single_rounding(ctx):
             f"ClockTime.from_seconds: {why}: a value within 0.5 ms below a second / minute / hour boundary yields an out-of-range field (e.g. 00:00:60.000)")
 
 
+def smpte_drop_frame_label(n: int, nominal: int):
+  """SMPTE ST 12-1 drop-frame label (h, m, s, f) of frame count n at nominal rate 30 or 60: the first
+  nominal/15 frame numbers of every minute are skipped, except in minutes 0, 10, 20, ..."""
+  d = nominal // 15
+  per10, permin = nominal * 600 - 9 * d, nominal * 60 - d
+  tens, rem = divmod(n, per10)
+  extra = 9 * d * tens + (d * ((rem - d) // permin) if rem >= d else 0)
+  n2 = n + extra
+  return (n2 // (nominal * 3600), (n2 // (nominal * 60)) % 60, (n2 // nominal) % 60, n2 % nominal)
+
+
+def check_drop_frame_labels(ctx):
+  """FIN-dropframe: from_frames and to_frames, evaluated with the finite evaluator on the frame counts
+  around every minute boundary of the first 22 minutes and around the hour (where drop-frame counting
+  has its special cases), agree with the SMPTE labels for 30000/1001 and 60000/1001, and are inverse."""
+  from fractions import Fraction as F
+  from ..consteval import ConstEval, FuncEval, NotConst, Raised, _CallingConstEval
+  ix = ctx.ix
+  ff = ix.func("ttconv.time_code:SmpteTimeCode.from_frames")
+  tf_ = ix.func("ttconv.time_code:SmpteTimeCode.to_frames")
+  ctx.unit(ff.module)
+  fe = FuncEval(ix)
+  ret = match.single_return(ff.node)
+  if ret is None or not isinstance(ret.value, ast.Call) or len(ret.value.args) < 4:
+    raise AnalysisError("from_frames: the final `return SmpteTimeCode(h, m, s, f, rate)` was not found")
+  body = [st for st in ff.node.body if st is not ret]
+  tbody = match.replace_exprs(tf_.node.body, {"super().to_seconds()": "__secs", "self.is_drop_frame()": "__df"})
+  n_eval, wrong_f, wrong_t = 0, [], []
+  for rate, nominal in ((F(30000, 1001), 30), (F(60000, 1001), 60)):
+    d = nominal // 15
+    permin = nominal * 60 - d
+    pts = set()
+    for k in range(0, 23):
+      pts |= {k * permin + j for j in range(-6, 7)} | {k * nominal * 60 + j for j in range(-3, 4)}
+    per10 = nominal * 600 - 9 * d
+    pts |= {per10 * t_ + j for t_ in (1, 2, 6) for j in range(-6, 7)} | {per10 * 6 * 2 + j for j in range(-3, 4)}
+    for n in sorted(p_ for p_ in pts if p_ >= 0):
+      want = smpte_drop_frame_label(n, nominal)
+      env = {ff.params[0]: n, ff.params[1]: rate, f"{ff.params[1]}.denominator": rate.denominator, f"{ff.params[1]}.numerator": rate.numerator}
+      try:
+        ce = _CallingConstEval(ix, fe, ff, 0, None)
+        fe._block(ce, ff, body, env)
+        got = tuple(ce.ev(ff.module, a, ff.cls, env) for a in ret.value.args[:4])
+      except (NotConst, Raised, TypeError) as e:
+        raise AnalysisError(f"from_frames leaves the evaluable subset at n={n}, rate={rate} ({e})")
+      n_eval += 1
+      if got != want:
+        wrong_f.append(f"frame {n} at {rate}: label {got}, SMPTE {want}")
+      # inverse
+      h, m_, s_, f_ = want
+      env2 = {"self._hours": h, "self._minutes": m_, "self._seconds": s_, "self._frames": f_, "self._frame_rate": rate, "__secs": h * 3600 + m_ * 60 + s_, "__df": True}
+      try:
+        back = fe._block(_CallingConstEval(ix, fe, tf_, 0, None), tf_, tbody, env2)
+      except Exception as e:   # _Return carries the value
+        back = getattr(e, "value", None)
+        if back is None and not type(e).__name__ == "_Return":
+          raise AnalysisError(f"to_frames leaves the evaluable subset at {want}, rate={rate} ({type(e).__name__}: {e})")
+      n_eval += 1
+      if back != n:
+        wrong_t.append(f"label {want} at {rate}: to_frames gives {back}, SMPTE frame {n}")
+  ctx.extra["drop_frame_evaluations"] = n_eval
+  ctx.check(not wrong_f, "FIN-dropframe", f"{ff.qualname}|SMPTE drop-frame labels at minute boundaries", ctx.where(ff.module, ff.node), f"{n_eval // 2} frame counts agree with SMPTE ST 12-1",
+            "from_frames: " + "; ".join(wrong_f[:3]) + (f" (+{len(wrong_f) - 3} more)" if len(wrong_f) > 3 else ""))
+  ctx.check(not wrong_t, "FIN-dropframe", f"{tf_.qualname}|inverse of the SMPTE labels at minute boundaries", ctx.where(tf_.module, tf_.node), f"{n_eval // 2} labels map back to their frame count",
+            "to_frames: " + "; ".join(wrong_t[:3]) + (f" (+{len(wrong_t) - 3} more)" if len(wrong_t) > 3 else ""))
+
+
+def check_drop_count(ctx):
+  """FIN-dropcount: for every rate that the class counts in drop-frame mode, dropping d labels in
+  nine minutes out of ten keeps the labels aligned with real time: 9 * d labels per ten minutes
+  must equal the label excess 600 * (ceil(rate) - rate) of that rate to within a twentieth of a frame
+  (17.982 vs 18 at 30000/1001, 35.964 vs 36 at 60000/1001).  d is the value the code computes."""
+  from fractions import Fraction as F
+  from math import ceil
+  from ..consteval import ConstEval, NotConst
+  ix = ctx.ix
+  ce = ConstEval(ix, symbolic_ok=False)
+  rates = [F(30000, 1001), F(60000, 1001), F(24000, 1001)]
+  for q in ("ttconv.time_code:SmpteTimeCode.from_frames", "ttconv.time_code:SmpteTimeCode.to_frames"):
+    f = ix.func(q)
+    ctx.unit(f.module)
+    defs_ = match.local_defs(f.node)
+    cand = [n for n, vs in defs_.items() if len(vs) == 1 and isinstance(vs[0], ast.Call) and unparse(vs[0].func) == "round" and "60" in unparse(vs[0])]
+    if len(cand) != 1:
+      raise AnalysisError(f"{q}: the per-minute drop count (round(60 * (nominal - rate))) was not found")
+    expr = match.inline_single_locals(f.node, defs_[cand[0]][0])
+    isdf = ix.func("ttconv.time_code:SmpteTimeCode.is_drop_frame")
+    for r in rates:
+      env = {"frame_rate": r, "self._frame_rate": r}
+      try:
+        sub = match.replace_exprs([ast.Expr(expr)], {"self._frame_rate": "frame_rate"})[0].value
+        d = ce.ev(f.module, sub, f.cls, {"frame_rate": r, "ceil": None})
+      except NotConst as e:
+        raise AnalysisError(f"{q}: the drop count `{short(expr, 60)}` leaves the evaluable subset ({e})")
+      excess = 600 * (ceil(r) - r)
+      ok = abs(excess - 9 * d) <= F(1, 20)
+      ctx.check(ok, "FIN-dropcount", f"{q}|rate {r}", ctx.where(f.module, defs_[cand[0]][0]), f"{d} labels dropped per minute: 9*{d} = {9 * d} vs excess {float(excess):.3f} per ten minutes",
+                f"{r} fps is counted in drop-frame mode (denominator 1001) with {d} label(s) dropped per minute, i.e. {9 * d} per ten minutes, but its label excess is {float(excess):.3f} per ten minutes: "
+                f"labels drift against frame counts, so from_frames and to_frames are not inverse at this rate (e.g. frame 15826 -> 00:10:59;20 -> 15827)")
+
+
 def run(ctx):
   ix = ctx.ix
   fs = common.funcs(ctx, ["ttconv.time_code"]) + [ix.func("ttconv.imsc.attributes:to_time_format")]
@@ -181,4 +282,6 @@ def run(ctx):
   check_temporal_offset(ctx)
   check_single_rounding(ctx)
   check_fmt(ctx)
+  check_drop_count(ctx)
+  check_drop_frame_labels(ctx)
   common.check_history_independence(ctx, ["ttconv.time_code", "ttconv.imsc.attributes", "ttconv.imsc.utils", "ttconv.srt.paragraph", "ttconv.vtt.cue"])
